@@ -1857,3 +1857,193 @@ def exC : Csc Int := { rows := 2, cols := 2, outer := #[0, 2, 3], inner := #[9, 
 example : TransposeReady exA exC := ⟨by decide, by decide, by decide, by decide, by decide⟩
 example : (exA.transposeInto exC).inner = #[0, 1, 1] ∧ (exA.transposeInto exC).vals = #[1, 2, 3] ∧ (exA.transposeInto exC).outer = #[0, 2, 3] := by decide
 end Piqp.Csc
+
+/-! ## Storage level: the arrays built from a raw matrix (`Csc.ofOpt`) denote it -/
+
+namespace Piqp.Csc
+variable {K : Type}
+
+/-- the stored entries of column `j` of the raw matrix, rows increasing -/
+def colList (r c : Nat) (ent : Array (Option K)) (j : Nat) : List (Nat × K) :=
+  (List.range r).filterMap fun i => (ent.getD (i * c + j) none).map fun v => (i, v)
+
+/-- all entries of columns `< J`, column by column -/
+def preList (r c : Nat) (ent : Array (Option K)) (J : Nat) : List (Nat × K) := (List.range J).flatMap (colList r c ent)
+
+theorem preList_succ (r c : Nat) (ent : Array (Option K)) (J : Nat) : preList r c ent (J + 1) = preList r c ent J ++ colList r c ent J := by
+  unfold preList; rw [List.range_succ, List.flatMap_append]; simp
+
+theorem col_fold (g : Nat → Option K) : ∀ (l : List Nat) (a : Array Nat × Array K),
+    (l.foldl (fun (a : Array Nat × Array K) i =>
+      match g i with
+      | some v => (a.1.push i, a.2.push v)
+      | none => a) a).1.toList = a.1.toList ++ (l.filterMap fun i => (g i).map fun v => (i, v)).map (·.1) ∧
+    (l.foldl (fun (a : Array Nat × Array K) i =>
+      match g i with
+      | some v => (a.1.push i, a.2.push v)
+      | none => a) a).2.toList = a.2.toList ++ (l.filterMap fun i => (g i).map fun v => (i, v)).map (·.2)
+  | [], a => by simp
+  | i :: l, a => by
+    rw [List.foldl_cons]
+    have ih := col_fold g l
+    cases h : g i with
+    | none =>
+      simp only [h, List.filterMap_cons, Option.map_none]
+      exact ih a
+    | some v =>
+      simp only [h, List.filterMap_cons, Option.map_some, List.map_cons]
+      have := ih (a.1.push i, a.2.push v)
+      simp only [Array.toList_push, List.append_assoc, List.singleton_append] at this
+      exact this
+
+/-- the three arrays after the first `J` columns of `ofOpt` -/
+theorem ofOpt_state (r c : Nat) (ent : Array (Option K)) : ∀ J : Nat,
+    let res := (List.range J).foldl (fun (acc : Array Nat × Array Nat × Array K) j =>
+      let col := (List.range r).foldl (fun (a : Array Nat × Array K) i =>
+        match ent.getD (i * c + j) none with
+        | some v => (a.1.push i, a.2.push v)
+        | none => a) (acc.2.1, acc.2.2)
+      (acc.1.push col.1.size, col.1, col.2)) (#[0], #[], #[])
+    res.1.toList = (List.range (J + 1)).map (fun t => (preList r c ent t).length) ∧
+    res.2.1.toList = (preList r c ent J).map (·.1) ∧ res.2.2.toList = (preList r c ent J).map (·.2)
+  | 0 => by simp [preList]
+  | J+1 => by
+    intro res
+    have ih := ofOpt_state r c ent J
+    simp only at ih
+    simp only [res]
+    rw [List.range_succ, List.foldl_append, List.foldl_cons, List.foldl_nil]
+    generalize (List.range J).foldl _ (#[0], #[], #[]) = acc at ih ⊢
+    obtain ⟨i1, i2, i3⟩ := ih
+    obtain ⟨c1, c2⟩ := col_fold (fun i => ent.getD (i * c + J) none) (List.range r) (acc.2.1, acc.2.2)
+    simp only at c1 c2 ⊢
+    have e1 : ∀ (x : Array Nat × Array K), x.1.size = x.1.toList.length := fun x => by simp
+    refine ⟨?_, ?_, ?_⟩
+    · rw [Array.toList_push, i1, e1, c1, i2, List.range_succ (n := J + 1), List.map_append]
+      simp [preList_succ, colList]
+    · rw [c1, i2, preList_succ]; simp [colList]
+    · rw [c2, i3, preList_succ]; simp [colList]
+
+theorem preList_prefix (r c : Nat) (ent : Array (Option K)) (a : Nat) : ∀ d : Nat, preList r c ent a <+: preList r c ent (a + d)
+  | 0 => List.prefix_refl _
+  | d+1 => by
+    rw [← Nat.add_assoc, preList_succ]
+    exact (preList_prefix r c ent a d).trans (List.prefix_append _ _)
+
+theorem getD_of_toList {α : Type} (a : Array α) (l : List α) (h : a.toList = l) (q : Nat) (d : α) : a.getD q d = l.getD q d := by
+  subst h
+  rw [Array.getD_eq_getD_getElem?, List.getD_eq_getElem?_getD, Array.getElem?_toList]
+
+theorem ofOpt_outer (r c : Nat) (ent : Array (Option K)) (j : Nat) (hj : j ≤ c) :
+    (ofOpt r c ent).outer.getD j 0 = (preList r c ent j).length := by
+  have h : (ofOpt r c ent).outer.toList = (List.range (c + 1)).map (fun t => (preList r c ent t).length) := (ofOpt_state r c ent c).1
+  rw [getD_of_toList _ _ h, List.getD_eq_getElem?_getD, List.getElem?_map, List.getElem?_range (by omega)]
+  rfl
+
+theorem ofOpt_mono (r c : Nat) (ent : Array (Option K)) : Mono (ofOpt r c ent) := by
+  intro j hj
+  have hc : (ofOpt r c ent).cols = c := rfl
+  rw [hc] at hj
+  rw [ofOpt_outer r c ent j (by omega), ofOpt_outer r c ent (j + 1) (by omega), preList_succ, List.length_append]
+  omega
+
+theorem ofOpt_colRange (r c : Nat) (ent : Array (Option K)) (j : Nat) (hj : j < c) :
+    (ofOpt r c ent).colRange j = List.range' (preList r c ent j).length (colList r c ent j).length := by
+  unfold colRange
+  rw [ofOpt_outer r c ent j (by omega), ofOpt_outer r c ent (j + 1) (by omega), preList_succ, List.length_append, Nat.add_sub_cancel_left]
+
+theorem ofOpt_entry (r c : Nat) (ent : Array (Option K)) [Zero K] (j : Nat) (hj : j < c) (t : Nat) (ht : t < (colList r c ent j).length) :
+    ((ofOpt r c ent).inner.getD ((preList r c ent j).length + t) 0, (ofOpt r c ent).vals.getD ((preList r c ent j).length + t) 0) =
+      (colList r c ent j)[t] := by
+  have h2 : (ofOpt r c ent).inner.toList = (preList r c ent c).map (·.1) := (ofOpt_state r c ent c).2.1
+  have h3 : (ofOpt r c ent).vals.toList = (preList r c ent c).map (·.2) := (ofOpt_state r c ent c).2.2
+  have hp : preList r c ent (j + 1) <+: preList r c ent c := by
+    have := preList_prefix r c ent (j + 1) (c - (j + 1))
+    rwa [show j + 1 + (c - (j + 1)) = c by omega] at this
+  obtain ⟨rest, hrest⟩ := hp
+  have hidx : (preList r c ent c)[(preList r c ent j).length + t]? = some (colList r c ent j)[t] := by
+    rw [← hrest, preList_succ, List.append_assoc, List.getElem?_append_right (by omega), Nat.add_sub_cancel_left,
+      List.getElem?_append_left ht, List.getElem?_eq_getElem ht]
+  rw [getD_of_toList _ _ h2, getD_of_toList _ _ h3, List.getD_eq_getElem?_getD, List.getD_eq_getElem?_getD,
+    List.getElem?_map, List.getElem?_map, hidx]
+  rfl
+
+theorem foldl_positions'' {α β : Type} (g : β → α → β) (a : Nat → α) : ∀ (l : List α) (s : Nat) (acc : β),
+    (∀ r (hr : r < l.length), a (s + r) = l[r]) →
+    (List.range' s l.length).foldl (fun acc q => g acc (a q)) acc = l.foldl g acc
+  | [], _, _, _ => rfl
+  | e :: l, s, acc, h => by
+    rw [List.length_cons, List.range'_succ, List.foldl_cons, List.foldl_cons]
+    have h0 := h 0 (by simp)
+    simp only [Nat.add_zero, List.getElem_cons_zero] at h0
+    rw [h0]
+    exact foldl_positions'' g a l (s + 1) _ (fun r hr => by
+      have := h (r + 1) (by simp; omega)
+      simp only [List.getElem_cons_succ] at this
+      rw [← this]; congr 1; omega)
+
+theorem foldl_filterMap' {α β γ : Type} (f : α → Option β) (g : γ → β → γ) : ∀ (l : List α) (acc : γ),
+    (l.filterMap f).foldl g acc = l.foldl (fun acc x => match f x with | some y => g acc y | none => acc) acc
+  | [], _ => rfl
+  | x :: l, acc => by
+    rw [List.filterMap_cons, List.foldl_cons]
+    cases h : f x with
+    | none => exact foldl_filterMap' f g l acc
+    | some y => rw [List.foldl_cons]; exact foldl_filterMap' f g l _
+
+
+theorem foldl_ext' {α β : Type} (f g : β → α → β) : ∀ (l : List α) (acc : β), (∀ acc x, f acc x = g acc x) → l.foldl f acc = l.foldl g acc
+  | [], _, _ => rfl
+  | x :: l, acc, h => by rw [List.foldl_cons, List.foldl_cons, h]; exact foldl_ext' f g l _ h
+
+/-- a fold in which only index `i` acts -/
+theorem foldl_single {β : Type} (F : β → β) (i : Nat) : ∀ (n s : Nat) (acc : β),
+    (List.range' s n).foldl (fun acc i' => if i' = i then F acc else acc) acc = if s ≤ i ∧ i < s + n then F acc else acc
+  | 0, s, acc => by
+    have : ¬ (s ≤ i ∧ i < s + 0) := by omega
+    rw [if_neg this]; rfl
+  | n+1, s, acc => by
+    rw [List.range'_succ, List.foldl_cons, foldl_single F i n (s + 1)]
+    by_cases h : s = i
+    · subst h
+      have h1 : ¬ (s + 1 ≤ s ∧ s < s + 1 + n) := by omega
+      have h2 : s ≤ s ∧ s < s + (n + 1) := by omega
+      rw [if_pos rfl, if_neg h1, if_pos h2]
+    · rw [if_neg h]
+      by_cases h3 : s + 1 ≤ i ∧ i < s + 1 + n
+      · have : s ≤ i ∧ i < s + (n + 1) := by omega
+        rw [if_pos h3, if_pos this]
+      · have : ¬ (s ≤ i ∧ i < s + (n + 1)) := by omega
+        rw [if_neg h3, if_neg this]
+
+/-- **the compressed arrays built from a raw matrix denote that matrix** (and their column starts are non-decreasing, `ofOpt_mono`):
+    with the storage-level theorems of the kernels this closes the chain raw input → arrays → kernel → dense meaning -/
+theorem get_ofOpt [AddZeroClass K] (r c : Nat) (ent : Array (Option K)) (i j : Nat) (hj : j < c) :
+    (ofOpt r c ent).get i j = if i < r then (ent.getD (i * c + j) none).getD 0 else 0 := by
+  unfold get
+  rw [ofOpt_colRange r c ent j hj]
+  have := foldl_positions'' (fun (acc : K) (e : Nat × K) => if e.1 = i then acc + e.2 else acc)
+    (fun q => ((ofOpt r c ent).inner.getD q 0, (ofOpt r c ent).vals.getD q 0)) (colList r c ent j) (preList r c ent j).length 0
+    (fun t ht => ofOpt_entry r c ent j hj t ht)
+  simp only at this
+  rw [this]
+  unfold colList
+  rw [foldl_filterMap', List.range_eq_range']
+  refine (foldl_ext' _ (fun (acc : K) (x : Nat) => if x = i then acc + (ent.getD (i * c + j) none).getD 0 else acc) _ 0
+    (fun acc x => ?_)).trans ?_
+  · by_cases hx : x = i
+    · subst hx
+      cases ent.getD (x * c + j) none <;> simp
+    · cases ent.getD (x * c + j) none <;> simp [hx]
+  rw [foldl_single (fun acc => acc + (ent.getD (i * c + j) none).getD 0) i r 0 0]
+  by_cases hi : i < r
+  · have : 0 ≤ i ∧ i < 0 + r := by omega
+    rw [if_pos this, if_pos hi, zero_add]
+  · have : ¬ (0 ≤ i ∧ i < 0 + r) := by omega
+    rw [if_neg this, if_neg hi]
+
+/-- the chain closed for one kernel: raw matrix → compressed arrays → `pre_mult_diagonal` loops → dense meaning -/
+theorem get_preMultDiag_ofOpt [CommSemiring K] (r c : Nat) (ent : Array (Option K)) (d : Array K) (i j : Nat) (hi : i < r) (hj : j < c) :
+    ((ofOpt r c ent).preMultDiag d).get i j = (ent.getD (i * c + j) none).getD 0 * d.getD i 0 := by
+  rw [(get_preMultDiag (ofOpt r c ent) (ofOpt_mono r c ent) d i j hj).1, get_ofOpt r c ent i j hj, if_pos hi]
+end Piqp.Csc
